@@ -219,6 +219,30 @@ fn freshness(rep: &mut Report, ctx: &Ctx) {
         }
         rep.measurements.insert(format!("freshness:set{set}"), json!({"archives": all.len(), "same_process": in_proc, "child_processes": procs, "per_child": per_child, "distinct_values": seen.len()}));
     }
+    // a long-lived process: more configurations than 2^16 (and than every count-like literal of the tree under
+    // test up to 2^20) created one after the other — a per-process generator indexed by a narrow counter repeats
+    // its secrets only then.  The secrets are read from the configuration (no archive is built).
+    {
+        let mut n: usize = 70_000;
+        if let Some(m) = crate::gens::extra_bounds().iter().copied().filter(|b| *b > 70_000 && *b <= (1 << 20)).max() { n = m + 4_464; }
+        let mut seen: std::collections::HashSet<([u8; 32], [u8; 8])> = std::collections::HashSet::with_capacity(n);
+        let mut seen_key: std::collections::HashSet<[u8; 32]> = std::collections::HashSet::with_capacity(n);
+        let mut seen_nonce: std::collections::HashSet<[u8; 8]> = std::collections::HashSet::with_capacity(n);
+        rep.eval(fnv(b"fresh-long-lived-process"), true);
+        rep.count("fresh:long-lived-process");
+        for i in 0..n {
+            let config = if i % 2 == 0 { mla::config::ArchiveWriterConfig::new() } else { mla::config::ArchiveWriterConfig::default() };
+            let (k, nn) = (*config.encryption_key(), *config.encryption_nonce());
+            let field = if !seen.insert((k, nn)) { Some("key+nonce") } else if !seen_key.insert(k) { Some("key") } else if !seen_nonce.insert(nn) && n < (1 << 24) { Some("nonce") } else { None };
+            if let Some(f) = field {
+                rep.violation("oracle", "C07/fresh", json!({"check":"repeat-long-run","field":f}),
+                    &format!("configuration #{i} created in one process repeats the {f} of an earlier one"),
+                    json!({"kind":"freshness-long-run","configurations": n, "index": i, "field": f}));
+                break;
+            }
+        }
+        rep.measurements.insert("freshness:long-run".into(), json!({"configurations": n}));
+    }
 }
 
 // ---------------------------------------------------------------------------------------------
